@@ -455,8 +455,10 @@ def _random_curve_cases(rng, n, prop):
             u = srec.compute_recession_curve(sy, T, np.array(coarse), 0.0, kappa, et)
             w = srec.compute_recession_curve(sy, T, np.array(fine), 2.0, kappa, et)[idx]
             r = srec.compute_recession_curve(sy, T, np.array(coarse[::-1]), 0.0, kappa, et)[::-1]
+            # resolution 1e-4 of the curve's span (DESIGN 3(F)): QUADPACK's accuracy on an integrand with up to
+            # 200 kinks per cell is not what this relation is about
             top = max(1e-9, float(np.abs(u - u[0]).max()))
-            S = 10 ** (6 - int(math.floor(math.log10(top))) - 1)
+            S = 10 ** (5 - int(math.floor(math.log10(top))) - 1)
             fx = lambda v: int(round(float(v) * S))
             cases.append({"id": "refine%d" % i, "kind": "same", "prop": "C18", "u": [fx(v) for v in u],
                           "w": [fx(v) for v in w], "tol": 5, "grid": coarse})
